@@ -33,6 +33,14 @@ CSV_VARIANTS = {
     'noheader': 'NETFLIX,Netflix,Subscriptions,Streaming\n',
 }
 VIEWS = '[Big]\ndescription: Large merchants\nfilter: total > 1000\n'
+RULES_VARIANTS = {
+    True: RULES,
+    # files from which get_all_rules() obtains no rule: they are still the user's rules file
+    'transforms': '# my clean-ups\nfield.description = regex_replace(field.description, "\\\\s+", " ")\nis_large = amount > 500\n',
+    'syntaxerr': RULES + '\n[Rent]\nmatch: contains("RENT"\ncategory: Housing\nsubcategory: Rent\n',
+    'empty': '',
+    'comments': '# Tally Merchant Rules\n#\n# [Example]\n# match: contains("X")\n# category: C\n\n',
+}
 BAK_OLD = 'Pattern,Merchant,Category,Subcategory\nOLDSTORE,Old Store,Shopping,Misc\n'
 
 
@@ -81,8 +89,9 @@ def gen_budget(rnd, force=None):
             vkey=pick('vkey', [False, True]), outdir=pick('outdir', [None, None, 'output', 'reports']),
             html=pick('html', [None, None, 'report.html']),
             extra=pick('settings_tail', ['', '', '# trailing comment without newline']))
-    if pick('rules', [False, True]):
-        files[root + 'config/merchants.rules'] = RULES
+    rv = pick('rules', [False, False, False, True, True, True, 'transforms', 'syntaxerr', 'empty', 'comments'])
+    if rv:
+        files[root + 'config/merchants.rules'] = RULES_VARIANTS[rv]
     csv = pick('csv', [None, 'rules', 'rules', 'rules', 'header', 'comments', 'indented', 'noheader'])
     if csv:
         files[root + 'config/merchant_categories.csv'] = CSV_VARIANTS[csv]
@@ -109,7 +118,30 @@ def gen_budget(rnd, force=None):
     return {'files': files, 'dirs': dirs, 'feat': f}
 
 
+INVOCATIONS = [None, None, None, 'abs', 'abs/', 'rel', 'rel/', './rel', './rel/', 'dot-in-config', 'parent-rel/', 'parent-rel',
+               'env', 'env/']
+
+
+def with_inv(rnd, spec, root):
+    """attach a spelling of the config directory (the budget's real one) to up/explain/discover/diag"""
+    if root is None:
+        return spec
+    inv = rnd.choice(INVOCATIONS)
+    if inv is None or (spec['k'] == 'up' and spec.get('out') and inv in ('dot-in-config', 'parent-rel/', 'parent-rel')):
+        return spec
+    return dict(spec, inv=inv, cfgrel=root + 'config')
+
+
 def gen_cmd(rnd, root):
+    c = gen_cmd0(rnd, root)
+    if c['k'] in ('up', 'explain', 'discover', 'diag'):
+        return with_inv(rnd, c, root)
+    if c['k'] == 'init' and c.get('target') == '.':
+        return dict(c, spell=rnd.choice(['dot', 'abs', 'abs/', './']))
+    return c
+
+
+def gen_cmd0(rnd, root):
     r = rnd.random()
     dataf = (root or '') + 'data/bank.csv'
     if r < 0.30:
@@ -132,6 +164,32 @@ def gen_cmd(rnd, root):
     if r < 0.89:
         return {'k': 'init', 'target': rnd.choice([None, None, None, '.', 'fresh'])}
     return {'k': rnd.choice(['workflow', 'update', 'reference'])}
+
+
+def cmd_entry(c):
+    """how the command is invoked: argv, working directory (relative to the budget dir), extra environment.
+    '{B}' stands for the absolute path of the budget directory (substituted by the runner)."""
+    argv, cwd, env = argv_of(c), '.', {}
+    inv, cfg = c.get('inv'), c.get('cfgrel')
+    if inv and cfg:
+        arg = None
+        if inv in ('abs', 'abs/'):
+            arg = '{B}/' + cfg + ('/' if inv.endswith('/') else '')
+        elif inv in ('rel', 'rel/'):
+            arg = cfg + ('/' if inv.endswith('/') else '')
+        elif inv in ('./rel', './rel/'):
+            arg = './' + cfg + ('/' if inv.endswith('/') else '')
+        elif inv == 'dot-in-config':
+            arg, cwd = '.', cfg
+        elif inv in ('parent-rel', 'parent-rel/'):
+            arg, cwd = 'budget/' + cfg + ('/' if inv.endswith('/') else ''), '..'
+        elif inv in ('env', 'env/'):
+            env = {'TALLY_CONFIG': '{B}/' + cfg + ('/' if inv.endswith('/') else '')}
+        if arg is not None:
+            argv = argv + [arg]
+    if c['k'] == 'init' and c.get('target') == '.' and c.get('spell') in ('abs', 'abs/', './'):
+        argv = ['init', {'abs': '{B}', 'abs/': '{B}/', './': './'}[c['spell']]]
+    return {'argv': argv, 'cwd': cwd, 'env': env}
 
 
 def argv_of(c):
@@ -193,6 +251,33 @@ def directed_cases():
         out.append((dict(base, mkey='commented', rules=False, csv='rules', bak=False),
                     [{'k': 'up', 'migrate': True, 'embedded': True, 'fmt': 'html', 'out': ['exports', 'r.html']},
                      {'k': 'up', 'migrate': False, 'embedded': False, 'fmt': 'html', 'out': ['', 'custom.html']}]))
+    # ---- spellings of the config directory: the output location is a property of the budget, not of the spelling ----
+    for layout in ('old', 'new'):
+        cfg = ('tally/' if layout == 'new' else '') + 'config'
+        base = {'layout': layout, 'settings': 'full', 'data': 'rows', 'mkey': 'rules', 'rules': True, 'csv': None,
+                'views': True, 'vkey': True, 'notes': True}
+        up = lambda inv, emb=True, mig=False: {'k': 'up', 'migrate': mig, 'embedded': emb, 'fmt': 'html', 'out': None,
+                                               'inv': inv, 'cfgrel': cfg}
+        ro = lambda k, inv, args=(): {'k': k, 'args': list(args), 'inv': inv, 'cfgrel': cfg}
+        out.append((dict(base), [up('rel/'), up('abs/', emb=False), ro('explain', 'rel/', ['Netflix']),
+                                 ro('discover', 'abs/', ['--format', 'json']), ro('diag', 'rel/')]))
+        out.append((dict(base, existing_out='old'), [up('dot-in-config'), up('parent-rel/', emb=False), up('./rel/'),
+                                                     ro('explain', 'dot-in-config'), ro('discover', 'parent-rel/')]))
+        out.append((dict(base, outdir='reports', html='report.html'),
+                    [up('env/'), up('env', emb=False), up('abs'), up('rel'), up('./rel'), up('parent-rel'),
+                     ro('diag', 'env/'), ro('discover', 'dot-in-config'), ro('explain', 'abs')]))
+        out.append((dict(base, mkey=None, rules=False, csv='rules', bak=False),
+                    [up('rel/', mig=True), up('abs/')]))
+    # ---- a merchants.rules from which no rule loads is still the user's file: init must not replace it ----
+    for layout in ('old', 'new'):
+        for rv in ('transforms', 'syntaxerr', 'empty', 'comments', True):
+            for mkey in (None, 'rules'):
+                out.append(({'layout': layout, 'settings': 'full', 'data': 'rows', 'mkey': mkey, 'rules': rv, 'csv': 'rules',
+                             'bak': False, 'views': False, 'notes': False},
+                            [{'k': 'init', 'target': None},
+                             {'k': 'up', 'migrate': False, 'embedded': True, 'fmt': 'html', 'out': None}]
+                            if mkey is None else
+                            [{'k': 'init', 'target': '.', 'spell': 'abs/'} if layout == 'old' else {'k': 'init', 'target': None}]))
     out.append(({'layout': 'none', 'notes': True, 'stray': True},
                 [{'k': 'up', 'migrate': True, 'embedded': True, 'fmt': 'html', 'out': None}, {'k': 'discover', 'args': []},
                  {'k': 'init', 'target': None}, {'k': 'init', 'target': None}]))
@@ -230,7 +315,7 @@ def gen_cases(seed, n_random, exhaustive=False):
         cases.append({'files': b['files'], 'dirs': b['dirs'], 'feat': b['feat'],
                       'specs': [gen_cmd(rnd, root) for _ in range(k)]})
     for c in cases:
-        c['cmds'] = [argv_of(s) for s in c['specs']]
+        c['cmds'] = [cmd_entry(s) for s in c['specs']]
         c['extra_roots'] = sorted({s['target'] + '/' for s in c['specs'] if s['k'] == 'init' and s.get('target') not in (None, '.')})
     return cases
 
@@ -514,7 +599,7 @@ def shrink(case, step_index, signature, budget=18):
     cur = {'files': dict(case['files']), 'dirs': list(case['dirs']), 'specs': list(case['specs'][:step_index + 1])}
 
     def norm(c):
-        c['cmds'] = [argv_of(s) for s in c['specs']]
+        c['cmds'] = [cmd_entry(s) for s in c['specs']]
         c['extra_roots'] = sorted({s['target'] + '/' for s in c['specs'] if s['k'] == 'init' and s.get('target') not in (None, '.')})
         return c
     trials = 0
@@ -535,6 +620,12 @@ def shrink(case, step_index, signature, budget=18):
     if last['k'] == 'up' and (not last['embedded'] or last['fmt'] != 'html' or last['out']):
         cand = norm({'files': cur['files'], 'dirs': cur['dirs'],
                      'specs': cur['specs'][:-1] + [dict(last, embedded=True, fmt='html', out=None)]})
+        trials += 1
+        if fails_with(cand, signature):
+            cur = cand
+    if cur['specs'][-1].get('inv'):
+        cand = norm({'files': cur['files'], 'dirs': cur['dirs'],
+                     'specs': cur['specs'][:-1] + [{k: v for k, v in cur['specs'][-1].items() if k not in ('inv', 'cfgrel')}]})
         trials += 1
         if fails_with(cand, signature):
             cur = cand
@@ -649,7 +740,12 @@ def main(tier):
     for s, occ in sorted(viol.items()):
         if s not in known_sigs:
             by_label.setdefault(cmd_label(cases[occ[0][0]]['specs'][occ[0][1]]), []).append(s)
+    prio = ['-overwrites', '-removes:', '-rewrites:', '-writes-outside', '-appends-outside', '-renames:', '-creates:', '-utime:']
+
+    def rank(x):
+        return (next((i for i, w in enumerate(prio) if w in x), len(prio)), x)
     for label, sigs in sorted(by_label.items()):
+        sigs.sort(key=rank)          # lead with the loss of user data, then stray writes
         s = sigs[0]
         occ = viol[s]
         ci, si, d = min(occ, key=lambda x: (x[1], len(cases[x[0]]['files'])))
@@ -720,7 +816,7 @@ def replay(path):
         main('quick')
         return 1
     case = dict(case)
-    case['cmds'] = [argv_of(s) for s in case['specs']]
+    case['cmds'] = [cmd_entry(s) for s in case['specs']]
     case['extra_roots'] = sorted({s['target'] + '/' for s in case['specs'] if s['k'] == 'init' and s.get('target') not in (None, '.')})
     steps = run_cases_impl([case], work=os.path.join(WORK, 'C20', 'replay'))[0]
     found = []
